@@ -11,8 +11,9 @@ SHARDS = {'quick': 2, 'thorough': 16}
 RULE = ('State machine over 2-4 real S3TapeCassette instances on one fake bucket, configurations drawn from '
         '{read_only} x {transient} x key prefixes {"", "a", "ab", "a/b"} (string prefixes of one another), bucket '
         'pre-populated with foreign objects; rules: create+save, save of a recording created by another cassette, get, '
-        'list, close, context-manager exit, and save-with-crash where the fake bucket raises after the k-th mutation '
-        '(k = 1, 2: every mutation of a save). Oracle over the bucket mutation log and before/after contents: a '
+        'list, close, context-manager exit, re-save of a stored recording, and save-with-crash where the fake bucket raises '
+        'after the k-th mutation (k = 1, 2: every mutation of a save) either as a BaseException (the process dies) or as an '
+        'ordinary exception (the write was applied, the response was lost). Oracle over the bucket mutation log and before/after contents: a '
         'read-only cassette causes no mutation; every mutation of a writable cassette has a key under '
         'tape_recorder_recordings/<its normalised prefix>{full,metadata}/; close of a writable transient cassette '
         'removes exactly the keys under its own full/ and metadata/ and any other close changes nothing; after every '
@@ -83,7 +84,7 @@ class Interp(object):
             result = fn()
         except allow as e:
             raised = e
-        except fakes3.BucketCrash as e:
+        except (fakes3.BucketCrash, fakes3.LostResponse) as e:
             raised = e
         finally:
             self.fake.actor = None
@@ -118,6 +119,7 @@ class Interp(object):
             self.recs.append((i, rec))
             if op.get('crash'):
                 self.fake.crash_after = op['crash']
+                self.fake.crash_kind = op.get('crash_kind', 'crash')
             cas.save_recording(rec)
             return rec
 
@@ -127,8 +129,9 @@ class Interp(object):
             if raised is None:
                 raise Violation('read-only cassette accepted create/save without raising', 'read-only')
         elif op.get('crash'):
-            if isinstance(raised, fakes3.BucketCrash):
+            if isinstance(raised, (fakes3.BucketCrash, fakes3.LostResponse)):
                 self.flags.add('crash-mid-save:%d' % op['crash'])
+                self.flags.add('crash-kind:' + op.get('crash_kind', 'crash'))
         elif raised is not None:
             raise Violation('writable cassette raised on save: %r' % (raised,), 'save-raises')
         else:
@@ -147,6 +150,27 @@ class Interp(object):
             self.flags.add('write-attempt-on-read-only')
             if raised is None:
                 raise Violation('read-only cassette accepted save_recording without raising', 'read-only')
+
+    def op_resave(self, op):
+        i = self._i(op['cas'])
+        owners = [(j, r) for j, r in self.recs if j == i]
+        if not owners or self.cfgs[i][1]:
+            return
+        _, rec = owners[op['n'] % len(owners)]
+        from playback.recordings.memory.memory_recording import MemoryRecording
+        clone = MemoryRecording(rec.id, dict(rec.recording_data), dict(rec.recording_metadata))
+        clone.add_metadata({'annotated': op['n']})
+
+        def fn():
+            if op.get('crash'):
+                self.fake.crash_after = op['crash']
+                self.fake.crash_kind = op.get('crash_kind', 'crash')
+            self.cas[i].save_recording(clone)
+
+        res, raised, muts, before, after = self._call(i, fn)
+        if raised is not None and op.get('crash'):
+            self.flags.add('crash-mid-resave')
+            self.flags.add('crash-kind:' + op.get('crash_kind', 'crash'))
 
     def op_get(self, op):
         if not self.recs:
@@ -203,9 +227,8 @@ class Interp(object):
                     except Exception as e:  # pylint: disable=broad-except
                         raise Violation('after %r: recording %r is discoverable under prefix %r but not fetchable: '
                                         '%s %s' % (op, rid, prefix, type(e).__name__, e), 'complete-before-visible')
-                    if r.get_metadata() != md:
-                        raise Violation('after %r: recording %r has inconsistent metadata objects' % (op, rid),
-                                        'complete-before-visible')
+                    # (agreement of the two metadata copies is C07's matter; half-way through a RE-save of an existing
+                    # id they legitimately differ - old discoverable metadata, new full object - and both are fetchable)
             if len(self.fake.log) != n0:
                 raise Violation('read-only cassette mutated the bucket while listing/fetching', 'read-only')
 
@@ -233,9 +256,16 @@ def make_machine(ctx):
         def save(self, cas, cat, v):
             self.step({'op': 'save', 'cas': cas, 'cat': cat, 'v': v})
 
-        @rule(cas=st.integers(0, 3), cat=st.sampled_from(CATS), v=st.integers(0, 3), k=st.sampled_from([1, 2]))
-        def save_crash(self, cas, cat, v, k):
-            self.step({'op': 'save', 'cas': cas, 'cat': cat, 'v': v, 'crash': k})
+        @rule(cas=st.integers(0, 3), cat=st.sampled_from(CATS), v=st.integers(0, 3), k=st.sampled_from([1, 2]),
+              kind=st.sampled_from(['crash', 'lost']))
+        def save_crash(self, cas, cat, v, k, kind):
+            self.step({'op': 'save', 'cas': cas, 'cat': cat, 'v': v, 'crash': k, 'crash_kind': kind})
+
+        @precondition(lambda self: self.interp.recs)
+        @rule(cas=st.integers(0, 3), n=st.integers(0, 20), k=st.sampled_from([0, 1, 2]), kind=st.sampled_from(['crash', 'lost']))
+        def resave(self, cas, n, k, kind):
+            """Save an already stored recording again (annotated), optionally with a crash point."""
+            self.step({'op': 'resave', 'cas': cas, 'n': n, 'crash': k, 'crash_kind': kind})
 
         @rule(cas=st.integers(0, 3), n=st.integers(0, 20))
         def save_foreign(self, cas, n):
@@ -264,12 +294,13 @@ def crash_enumeration(ctx):
     """Deterministic sweep: for every configuration of a writable cassette and every mutation index of a save."""
     for prefix in PREFIXES:
         for tr in (False, True):
-            for k in (1, 2, 3):
+            for k, kind in ((1, 'crash'), (2, 'crash'), (3, 'crash'), (1, 'lost'), (2, 'lost')):
                 hist = [{'op': 'init', 'configs': [[prefix, False, tr], [prefix, True, False]]},
                         {'op': 'save', 'cas': 0, 'cat': 'A', 'v': 1},
-                        {'op': 'save', 'cas': 0, 'cat': 'A', 'v': 2, 'crash': k},
+                        {'op': 'save', 'cas': 0, 'cat': 'A', 'v': 2, 'crash': k, 'crash_kind': kind},
                         {'op': 'list', 'cas': 1, 'cat': 'A', 'limit': None},
-                        {'op': 'save', 'cas': 0, 'cat': 'AB', 'v': 3, 'crash': k},
+                        {'op': 'resave', 'cas': 0, 'n': 0, 'crash': k, 'crash_kind': kind},
+                        {'op': 'save', 'cas': 0, 'cat': 'AB', 'v': 3, 'crash': k, 'crash_kind': kind},
                         {'op': 'close', 'cas': 0, 'via': 'close'}]
                 from pbt.runner import guarded
                 guarded(ctx, hist, lambda h: replay_history(Interp(ctx), h))
